@@ -8,21 +8,20 @@ import common
 import gen
 
 ASSUMPTIONS = [
-    "Theorems are about the Lean model of Solver::findRoot (LibfiveModel/Solver.lean) for every evaluator "
-    "(value/grad are arbitrary functions), every scalar satisfying the listed IEEE laws (Libfive.Solver.Laws; "
-    "proved for the concrete FVal = nan|ninf|fin|pinf arithmetic, tested on Float32 landmarks by `vd-c17 laws`), "
-    "every initial assignment, mask and budget.",
+    "Theorems are about the Lean model of Solver::findRoot as of /repo commits 4e85339 + 3fa47ee (LibfiveModel/Solver.lean) "
+    "for every evaluator (value/grad are arbitrary functions), every scalar satisfying the listed IEEE laws "
+    "(Libfive.Solver.Laws; proved for the concrete FVal = nan|ninf|fin|pinf arithmetic, tested on Float32 landmarks by "
+    "`vd-c17 laws`), every initial assignment, mask and budget.",
     "Tie: the model is run at Float32 with the REAL JacobianEvaluator's answers (value and gradient at every accepted "
     "point, value at every backtracking trial point) as its oracle; for every budget g of a gas sweep the model's "
-    "returned residual and variables must equal the real call's bit for bit, and a real time-out must coincide with "
-    "a model-certified fixed point of the line search. Accepted points are observed through the public API only "
+    "returned residual and variables must equal the real call's bit for bit (a real time-out can only be matched by a "
+    "model fixed point, which the fixed model no longer has). Accepted points are observed through the public API only "
     "(gas = g gives the state after g-1 iterations); no hook.",
     "Float gap: slope / step / trial points are re-derived in Float32 (fused and unfused variants, the one that "
-    "reproduces the harness' numbers is used); signed zeros are identified in the laws (FVal has one zero).",
-    "The watchdog (seconds, generous) is the only use of wall-clock time; a time-out is reported as a violation only "
-    "for the user-level call, and is classified by the model's fixed-point certificate.",
-    "inner_terminates is proved only under the finiteness hypotheses (`_partial`); its unrestricted form is refuted "
-    "(inner_not_total), matching the real hangs listed in known_findings.d/C17.json.",
+    "reproduces the harness' numbers is used); absent variables are compared by value (-0 - (-0) = +0).",
+    "findRoot_terminates needs a uniform halving bound of the scalar (278 for IEEE single: tested, not proved, for Float32).",
+    "The watchdog (seconds, generous) is the only use of wall-clock time; a time-out of the user-level call is re-run "
+    "under a much longer watchdog before it is reported.",
 ]
 
 SPECIAL = {"nan": "7fc00000", "inf": "7f800000", "-inf": "ff800000", "-0": "80000000"}
@@ -266,12 +265,8 @@ def parse_sol(w):
     return {"status": "ok", "r": w[2], "sol": {int(w[5 + 2 * i]): w[6 + 2 * i] for i in range(n)}}
 
 
-HANG_KEYS = {
-    "nan-step": "C17:linesearch-hang-nan-step",
-    "inf-step": "C17:linesearch-hang-inf-step",
-    "zero-step-nonfinite-gradient": "C17:linesearch-hang-zero-step-infinite-gradient",
-    "zero-step": "C17:linesearch-hang-signed-zero-step",
-}
+# all formerly known mechanisms are repaired in /repo (known_findings.d/C17.json, "fixed"): nothing is keyed any more
+HANG_KEYS = {}
 
 
 def corpus_meta(lines):
@@ -294,7 +289,7 @@ def run(rep, tier, seed, replay=None):
     rng = random.Random(seed * 104729 + 17)
     aud = common.audit("C17")
     exe = common.build_harness("solver")
-    n = 320 if tier == "quick" else 3000
+    n = 800 if tier == "quick" else 6000
     cases = gen_cases(rng, n, tier)
     # corpus of past failures first (ids prefixed to stay distinct)
     corpus_dir = os.path.join(common.VERIF, "corpus", "C17")
@@ -387,14 +382,13 @@ def run(rep, tier, seed, replay=None):
             stats["cases_with_iterations"] += 1
         if nonfin:
             stats["nonfinite_accepted_cases"] += 1
+        if info(cid, "gaveup") == "1":
+            stats["gave_up_cases"] = stats.get("gave_up_cases", 0) + 1
         # ---- 1. the call returns (watchdog)
         if u["status"] != "ok":
             stats["user_timeout"] += 1
             kind = hang.split(":", 1)[1] if hang and hang != "none" else None
             key = HANG_KEYS.get(kind)
-            if kind is None and c.get("gas") == 0 and any(v.startswith("ok userlong") for v in by_case.get(cid, [])):
-                # the model is still iterating at the end of the sweep: the wrapped budget is 2^32 - 1
-                kind, key = "gas-zero-wrap", "C17:gas-zero-wraps"
             if kind is None and u["status"] == "timeout":
                 # no model certificate for a hang: never alarm on a merely slow call -> long watchdog
                 long_wd = 60 if tier == "quick" else 240
@@ -441,7 +435,7 @@ def run(rep, tier, seed, replay=None):
             if untouchable:
                 stats["absent_checked" if not indeck else "gradzero_checked"] += 1
                 if not feq(sol[i], init):
-                    key = "C17:nonfinite-step-moves-absent-variable" if nonfin else None
+                    key = None
                     rep.violation("variable %d (%s) changed from %s to %s" % (
                         node, "absent from the expression" if not indeck else "only behind const-vars", init, sol[i]),
                         replay_of(cid, kind="oracle-absent", nonfinite_step_accepted=nonfin), key=key)
@@ -455,7 +449,7 @@ def run(rep, tier, seed, replay=None):
                 if moved:
                     stats["gas0_moved"] += 1
                     rep.violation("gas=0 performed iterations (result differs from the zero-iteration result)",
-                                  replay_of(cid, kind="oracle-budget"), key="C17:gas-zero-wraps")
+                                  replay_of(cid, kind="oracle-budget"))
                     reported.add(cid)
 
     # ---- correspondence verdicts
